@@ -215,7 +215,7 @@ class AtomicIntegralBase<Impl, T, true> : public AtomicFloatingBase<Impl, T, tru
     return r;
   }
   T operator++() volatile noexcept {
-    YACLIB_INJECT_FAULT(auto r = ++static_cast<Impl&>(*this));
+    YACLIB_INJECT_FAULT(auto r = ++static_cast<volatile Impl&>(*this));
     return r;
   }
 
@@ -224,7 +224,7 @@ class AtomicIntegralBase<Impl, T, true> : public AtomicFloatingBase<Impl, T, tru
     return r;
   }
   T operator++(int) volatile noexcept {
-    YACLIB_INJECT_FAULT(auto r = static_cast<Impl&>(*this)++);
+    YACLIB_INJECT_FAULT(auto r = static_cast<volatile Impl&>(*this)++);
     return r;
   }
 
@@ -233,7 +233,7 @@ class AtomicIntegralBase<Impl, T, true> : public AtomicFloatingBase<Impl, T, tru
     return r;
   }
   T operator--() volatile noexcept {
-    YACLIB_INJECT_FAULT(auto r = --static_cast<Impl&>(*this));
+    YACLIB_INJECT_FAULT(auto r = --static_cast<volatile Impl&>(*this));
     return r;
   }
 
@@ -242,7 +242,7 @@ class AtomicIntegralBase<Impl, T, true> : public AtomicFloatingBase<Impl, T, tru
     return r;
   }
   T operator--(int) volatile noexcept {
-    YACLIB_INJECT_FAULT(auto r = static_cast<Impl&>(*this)--);
+    YACLIB_INJECT_FAULT(auto r = static_cast<volatile Impl&>(*this)--);
     return r;
   }
 
@@ -312,7 +312,7 @@ class Atomic<Impl, U*> : public AtomicBase<Impl, U*> {
     return r;
   }
   U* operator++() volatile noexcept {
-    YACLIB_INJECT_FAULT(auto* r = ++static_cast<Impl&>(*this));
+    YACLIB_INJECT_FAULT(auto* r = ++static_cast<volatile Impl&>(*this));
     return r;
   }
 
@@ -321,7 +321,7 @@ class Atomic<Impl, U*> : public AtomicBase<Impl, U*> {
     return r;
   }
   U* operator++(int) volatile noexcept {
-    YACLIB_INJECT_FAULT(auto* r = static_cast<Impl&>(*this)++);
+    YACLIB_INJECT_FAULT(auto* r = static_cast<volatile Impl&>(*this)++);
     return r;
   }
 
@@ -330,7 +330,7 @@ class Atomic<Impl, U*> : public AtomicBase<Impl, U*> {
     return r;
   }
   U* operator--() volatile noexcept {
-    YACLIB_INJECT_FAULT(auto* r = --static_cast<Impl&>(*this));
+    YACLIB_INJECT_FAULT(auto* r = --static_cast<volatile Impl&>(*this));
     return r;
   }
 
@@ -339,7 +339,7 @@ class Atomic<Impl, U*> : public AtomicBase<Impl, U*> {
     return r;
   }
   U* operator--(int) volatile noexcept {
-    YACLIB_INJECT_FAULT(auto* r = static_cast<Impl&>(*this)--);
+    YACLIB_INJECT_FAULT(auto* r = static_cast<volatile Impl&>(*this)--);
     return r;
   }
 
